@@ -50,6 +50,76 @@ var families = map[string]genCfg{
 		Cmds: 1.5, PendCmds: true, VisitLine: true, Storer: "recording"},
 }
 
+// domainCalls enumerates calls of the random built-ins over argument classes (property C06:
+// 0, negatives, non-integers, +-Inf, NaN, magnitudes beyond int64, spans that overflow).
+func domainCalls() []*Expr {
+	classes := func() []*Expr {
+		return []*Expr{eNum(0, 1), eNum(1, 1), eNum(6, 1), eNeg(eNum(1, 1)), eNum(5, 2), eSpecial("inf"), eSpecial("neginf"),
+			eSpecial("nan"), eSpecial("huge"), eSpecial("neghuge"), eSpecial("big"), eSpecial("negbig"), eStr("six"), eBool(true)}
+	}
+	var out []*Expr
+	for _, a := range classes() {
+		out = append(out, eCall("dice", a))
+	}
+	out = append(out, eCall("dice"), eCall("dice", eNum(1, 1), eNum(2, 1)))
+	as := classes()
+	for i := range as {
+		for j := range as {
+			if i < 12 && j < 12 || (i+j)%5 == 0 {
+				out = append(out, eCall("random_range", classes()[i], classes()[j]))
+			}
+		}
+	}
+	out = append(out, eCall("random_range", eNum(1, 1)), eCall("random_range", eNum(5, 1), eNum(1, 1)))
+	return out
+}
+
+// genDomainCase places ONE built-in call in one statement kind at one nesting position.
+func genDomainCase(id int) *Case {
+	calls := domainCalls()
+	k := id - 1
+	call := calls[k%len(calls)]
+	kind := (k / len(calls)) % 7
+	pos := (k / (len(calls) * 7)) % 3
+	c := &Case{ID: id, Family: "domain", Funcs: defaultFuncs(), Cmds: defaultCmds(), Storer: "recording", Vars: []string{"n"}}
+	c.Nodes = []Node{{Title: "Start"}}
+	var st Stmt
+	switch kind {
+	case 0:
+		st = Stmt{K: "line", Text: []Part{{Lit: "roll "}, {E: call}}}
+	case 1:
+		st = Stmt{K: "set", Var: "n", Op: "=", E: call}
+	case 2:
+		st = Stmt{K: "if", Clauses: []Clause{{Cond: eBin("gt", call, eNum(0, 1)), Body: c.addBody([]Stmt{{K: "line", Text: []Part{{Lit: "positive"}}}})}}}
+	case 3:
+		st = Stmt{K: "opts", Opts: []Option{{Text: []Part{{Lit: "Pick"}}, Cond: eBin("ge", call, eNum(1, 1))}}}
+	case 4:
+		st = Stmt{K: "opts", Opts: []Option{{Text: []Part{{Lit: "Pick "}, {E: call}}}}}
+	case 5:
+		st = Stmt{K: "cmd", Elems: []*Expr{eStr("cdone"), call}}
+	default:
+		st = Stmt{K: "call", E: call}
+	}
+	after := Stmt{K: "line", Text: []Part{{Lit: "after"}}}
+	var body []Stmt
+	switch pos {
+	case 0:
+		body = []Stmt{st, after}
+	case 1:
+		inner := c.addBody([]Stmt{st, {K: "line", Text: []Part{{Lit: "inner after"}}}})
+		body = []Stmt{{K: "opts", Opts: []Option{{Text: []Part{{Lit: "Go"}}, Body: inner}}}, after}
+	default:
+		inner := c.addBody([]Stmt{st})
+		body = []Stmt{{K: "if", Clauses: []Clause{{Cond: eBool(false), Body: 0}, {Cond: eBool(true), Body: inner}}}, after}
+	}
+	body = append([]Stmt{{K: "line", Text: []Part{{Lit: "before"}}}, {K: "set", Var: "n", Op: "=", E: eNum(0, 1)}}, body...)
+	c.Nodes[0].Body = c.addBody(body)
+	c.Readers = []int{1}
+	return c
+}
+
+func domainCaseCount() int { return len(domainCalls()) * 7 * 3 }
+
 type gen struct {
 	rnd    *rand.Rand
 	cfg    genCfg
@@ -238,7 +308,23 @@ func (g *gen) expr(t string, depth int) *Expr {
 // faultyExpr generates an expression whose evaluation is a script-level fault.
 func (g *gen) faultyExpr(t string, depth int) *Expr {
 	r := g.rnd
-	switch r.Intn(10) {
+	switch r.Intn(15) {
+	case 10:
+		return eNull() // the null literal has no value
+	case 11:
+		return eCall("noret") // a function that returns nothing, used as a value
+	case 12:
+		return eCall("p1", eCall("noret", g.expr("n", 0))) // ... passed on as an argument
+	case 13:
+		if t == "n" {
+			return eBin("add", eCall("noret"), g.expr("n", 0)) // ... as an operand
+		}
+		return eBin("eq", g.expr(t, 0), eNull())
+	case 14:
+		if t == "b" {
+			return eNot(eCall("noret"))
+		}
+		return eNeg(eNull())
 	case 0:
 		return eVar("nosuchvar")
 	case 1:
